@@ -944,6 +944,14 @@ def walk_cases(ctx, env, n):
         cases.append(('OGroup', 'g', True, fwd, [('D', [('a', 'g', 'l'), ('b', 'g', 'l')])], [[('T', 20), ('E', 10)]]))
         cases.append(('OLocation', 'l', True, fwd, [('D', [('a', 'g', 'l')])], [[('D', [('a', 'g', 'm')])]]))
         cases.append(('OGroup', 'g', True, fwd, [('D', [('a', 'g', 'l'), ('b', 'g', 'l'), ('c', 'g', 'l')])], [[('D', [('b', 'h', 'l')])], [], []]))
+    # a light, a group and a location labelled with the empty string: a name like any other, visited like any other (D63)
+    for fwd in (True, False):
+        pop = [('D', [('', 'g', 'l'), ('a', 'g', ''), ('b', '', 'l')])]
+        cases.append(('OLight', '', False, fwd, pop, [[], [], [], []]))
+        cases.append(('OGroup', '', False, fwd, pop, [[], [], []]))
+        cases.append(('OLocation', '', False, fwd, pop, [[], [], []]))
+        cases.append(('OGroup', 'g', True, fwd, pop, [[], [], []]))
+        cases.append(('OLocation', '', True, fwd, pop, [[], []]))
     A = {'names': ['a', 'b', 'c', 'd', 'B'], 'groups': ['g', 'h'], 'locs': ['l', 'm']}
     while len(cases) < n:
         prefix = random_history(rng, A, 5)
@@ -1047,7 +1055,6 @@ def run(ctx):
                 'iteration / walk during which something was actually removed or changed; distinct by full input')
     ctx.assumptions += ['ASCII names; times are integral seconds (time.time patched inside bardolph.controller.light), light_gc_time integral',
                         'get_lights() of the LightApi either raises before yielding a light or returns the whole list (as LifxLanApi does)',
-                        'the empty string is not used as a light, group or location name in VmDiscover walks (`x or Operand.NULL` turns it into NULL)',
                         'single thread: discoveries and expiries happen between, not during, the steps of an iteration']
     ctx.trusted += ['harness/props/c13.py: fake LightApi, virtual clock, clone of the private state for state-space deduplication, text formats mirrored in Python']
     thorough = ctx.thorough()
